@@ -13,6 +13,7 @@
 import FordModel.Use
 import FordModel.Lemmas.UseSpec
 import FordModel.Lemmas.Use
+import FordModel.Lemmas.UseHost
 import FordModel.Generated.C06
 namespace Ford.C06
 open Ford Ford.Use
@@ -121,6 +122,111 @@ theorem bare_rename_admits_repaired (u : UseA) (r l : Str) (ho : u.only = false)
     (hn : (u.items.map UItem.remote).Nodup) (hall : ∀ it ∈ u.items, ∃ a b, it = UItem.ren a b) :
     AdmitsCode u r l ↔ Admits u r l :=
   code_iff_admits_repaired u r l ho hf hn hall
+
+/-! ### USE association inside contained procedures (host association, F2018 19.5.1.4)
+
+  `runN` is the ranklist loop including the recursion into module procedures and internal
+  procedures (`Nested`); `correlateNested g st k hostAll p` is `correlate` of the contained
+  procedure `p` at the moment the project state is `st` and its host's table is `hostAll`. -/
+
+/-- Contained procedures never disturb the tables of modules and programs: every theorem above
+    about `run` holds verbatim for the tables `runN` gives the scopes of `g`. -/
+theorem contained_procedures_leave_hosts_alone (g : List Scope) (ns : List Nested) (k : Nat)
+    (order : List Str) (hd : NestedDisjoint g ns) (m : Scope) (hm : m ∈ g) :
+    getTabs (runN k g ns order) m.name = getTabs (run k g order) m.name :=
+  runN_agree g ns k hd order m hm
+
+/-- **A name obtained by USE inside a procedure denotes the exporting module's entity, whatever
+    the host knows under that name** (use association hides host association): for every host
+    table, every state in which the `pub_*` tables of the used modules are sound (`hsd`) and
+    complete (`hcp`) - what `tables_sound_partial` / `tables_complete_partial` establish once
+    those modules are correlated -, every USE form without the defect classes. -/
+theorem use_association_hides_host_partial (g : List Scope) (k : Nat) (st : State) (hostAll : Table)
+    (p : Scope) (hun : UniqueNames g)
+    (hb : ∀ u ∈ p.uses, u.only = false → u.items = [])
+    (hr : ∀ u ∈ p.uses, u.only = true → (u.items.map UItem.remote).Nodup)
+    (hsd : ∀ u ∈ p.uses, ∀ n, findMod g u.mod = some n → ∀ q ∈ (getTabs st n.name).pub, Exports g k n q.1 q.2)
+    (hcp : ∀ u ∈ p.uses, ∀ n, findMod g u.mod = some n → ∀ r e, Exports g k n r e → hasKey (getTabs st n.name).pub r)
+    (hamb : ∀ l e e', ImportsU g k p.uses l e → ImportsU g k p.uses l e' → e = e')
+    (l : Str) (e : Ent) (hi : ImportsU g k p.uses l e) :
+    aget (correlateNested g st k hostAll p).all l = some e :=
+  nested_import_wins g k st hostAll p hun hb hr hsd hcp hamb l e hi
+
+/-- **Exactly the accessible names in a contained procedure**: its table is the standard's
+    relation `SeesIn` over its host's table - own declarations, names obtained by USE (under the
+    local name, resolved to the exporting module's entity), and those host identifiers that are
+    neither redeclared nor use-associated in the procedure.  Excluded classes, explicit: the
+    USE defect classes, a use-associated identifier redeclared locally (`hs`, illegal Fortran),
+    ambiguous imports (`hamb`, illegal when referenced) and hiding across kinds
+    (`SameKindHiding`: FORD keeps one table per kind). -/
+theorem nested_use_exact_partial (g : List Scope) (k : Nat) (st : State) (hostAll : Table) (p : Scope)
+    (hun : UniqueNames g)
+    (hb : ∀ u ∈ p.uses, u.only = false → u.items = [])
+    (hr : ∀ u ∈ p.uses, u.only = true → (u.items.map UItem.remote).Nodup)
+    (hsd : ∀ u ∈ p.uses, ∀ n, findMod g u.mod = some n → ∀ q ∈ (getTabs st n.name).pub, Exports g k n q.1 q.2)
+    (hcp : ∀ u ∈ p.uses, ∀ n, findMod g u.mod = some n → ∀ r e, Exports g k n r e → hasKey (getTabs st n.name).pub r)
+    (hs : ∀ l e, ImportsU g k p.uses l e → ∀ d ∈ p.decls, d.name ≠ l)
+    (hamb : ∀ l e e', ImportsU g k p.uses l e → ImportsU g k p.uses l e' → e = e')
+    (hx : SameKindHiding g k hostAll p) (l : Str) (e : Ent) :
+    aget (correlateNested g st k hostAll p).all l = some e ↔
+      SeesIn g k (fun l e => aget hostAll l = some e) p l e :=
+  nested_exact g k st hostAll p hun hb hr hsd hcp hs hamb hx l e
+
+/-- **End to end, any nesting depth, any chain of re-exporting modules behind the USE**: after
+    the whole ranklist loop, in any order that is topological for the USE graph *including the
+    USE statements of contained procedures* (`isTopoN`; what `get_deps`' recursion provides,
+    checked on the real order in every run), the table of a contained procedure `x` is exactly
+    the standard's `SeesIn` over the final table of its host: names obtained by USE resolve to
+    the exporting module's entity under the local name and hide the host's, the rest of the host's
+    identifiers stay accessible.  `hostsFirst`: hosts are correlated before their children. -/
+theorem nested_tables_exact_partial (g : List Scope) (ns : List Nested) (k : Nat) (order : List Str)
+    (hu : UniqueNames g) (hb : NoBareRename g) (hr : NoRepeatedRemote g) (hp : NoEffectivePrivate g)
+    (hs : NoShadow g k) (hd : NestedDisjoint g ns) (hpw : NestedNamesDistinct ns)
+    (ht : isTopoN g ns [] order = true)
+    (x : Nested) (hx : x ∈ ns) (m : Scope) (hm : m ∈ g) (hroot : m.name = x.root) (hin : x.root ∈ order)
+    (hhf : hostsFirst [x.root] (ns.filter (fun y => y.root == x.root)))
+    (hb' : ∀ u ∈ x.scope.uses, u.only = false → u.items = [])
+    (hr' : ∀ u ∈ x.scope.uses, u.only = true → (u.items.map UItem.remote).Nodup)
+    (hs' : ∀ l e, ImportsU g k x.scope.uses l e → ∀ d ∈ x.scope.decls, d.name ≠ l)
+    (hamb : ∀ l e e', ImportsU g k x.scope.uses l e → ImportsU g k x.scope.uses l e' → e = e')
+    (hk : SameKindHiding g k (getTabs (runN k g ns order) x.host).all x.scope) (l : Str) (e : Ent) :
+    aget (getTabs (runN k g ns order) x.scope.name).all l = some e ↔
+      SeesIn g k (fun l e => aget (getTabs (runN k g ns order) x.host).all l = some e) x.scope l e :=
+  nested_run_exact g ns k order hu hb hr hp hs hd hpw ht x hx m hm hroot hin hhf hb' hr' hs' hamb hk l e
+
+private def hM0 : Scope :=
+  { name := "m0".toList, isMod := true, defPub := true, pubNames := [], privNames := [],
+    decls := [{ name := ['v'], kind := 3, acc := none }, { name := ['u'], kind := 3, acc := none }], uses := [] }
+private def hM1 : Scope :=
+  { name := "m1".toList, isMod := true, defPub := true, pubNames := [], privNames := [],
+    decls := [{ name := ['v'], kind := 3, acc := none }, { name := ['w'], kind := 3, acc := none }], uses := [] }
+private def hProc (rest : Str) : Nested :=
+  { root := "m1".toList, host := "m1".toList,
+    scope := { name := ['n'], isMod := false, defPub := true, pubNames := [], privNames := [], decls := [],
+               uses := [mkUse "m0".toList rest] } }
+
+/-- non-vacuity / worked instance: module `m1` declares `v` and `w` and contains procedure `n`;
+    with `use m0, only: v` (and with `use m0, only: v => u`, and with plain `use m0`) the
+    procedure's `v` is `m0`'s entity, the host's `w` stays visible, the host's own table is
+    untouched - for both file orders. -/
+theorem use_hides_host_witness :
+    (∀ order ∈ [["m0".toList, "m1".toList], ["m1".toList, "m0".toList]],
+      aget (getTabs (runN 3 [hM0, hM1] [hProc ", only: v".toList] order) ['n']).all ['v'] = some ("m0".toList, ['v']) ∧
+      aget (getTabs (runN 3 [hM0, hM1] [hProc ", only: v".toList] order) ['n']).all ['w'] = some ("m1".toList, ['w']) ∧
+      aget (getTabs (runN 3 [hM0, hM1] [hProc ", only: v".toList] order) "m1".toList).all ['v'] = some ("m1".toList, ['v'])) ∧
+    aget (getTabs (runN 3 [hM0, hM1] [hProc ", only: v => u".toList] ["m0".toList, "m1".toList]) ['n']).all ['v']
+      = some ("m0".toList, ['u']) ∧
+    aget (getTabs (runN 3 [hM0, hM1] [hProc []] ["m0".toList, "m1".toList]) ['n']).all ['v'] = some ("m0".toList, ['v']) := by
+  decide
+
+/-- the order hypothesis of `nested_tables_exact_partial` is satisfiable and is strictly stronger
+    than `isTopo`: with the USE only inside the procedure, `m1` before `m0` is a topological order
+    of the module-level USE graph but not of the graph that counts contained procedures -/
+example :
+    isTopoN [hM0, hM1] [hProc ", only: v".toList] [] ["m0".toList, "m1".toList] = true ∧
+    isTopo [hM0, hM1] [] ["m1".toList, "m0".toList] = true ∧
+    isTopoN [hM0, hM1] [hProc ", only: v".toList] [] ["m1".toList, "m0".toList] = false := by
+  decide
 
 /-! ### Witnesses of the four defect classes (the replay inputs of known_findings/C06.json) -/
 
